@@ -210,6 +210,7 @@ type rewriter struct {
 	inv     inventory
 	file    string
 	changed bool
+	cur     *ast.File
 	skip    map[ast.Node]bool // comm-clause operations handled by the select rewrite
 	n       int
 }
@@ -263,6 +264,7 @@ func (r *rewriter) timePkgObj(e ast.Expr, names ...string) (string, bool) {
 
 func (r *rewriter) file2(f *ast.File) {
 	r.skip = map[ast.Node]bool{}
+	r.cur = f
 	// pass 1: mark comm-clause operations, reject what cannot be translated
 	ast.Inspect(f, func(n ast.Node) bool {
 		switch x := n.(type) {
@@ -338,7 +340,10 @@ func (r *rewriter) file2(f *ast.File) {
 			if x.Call.Ellipsis.IsValid() {
 				die("%s: go statement with a variadic spread", r.pos(x))
 			}
-			name := exprName(x.Call.Fun) + "@" + r.pos(x)
+			name := exprName(x.Call.Fun)
+			if name == "func" {
+				name = "goroutine-in-" + r.enclosing(x)
+			}
 			body := &ast.FuncLit{Type: &ast.FuncType{Params: &ast.FieldList{}}, Body: &ast.BlockStmt{List: []ast.Stmt{&ast.ExprStmt{X: call(fn, args...)}}}}
 			list = append(list, &ast.ExprStmt{X: call(vs("Go"), &ast.BasicLit{Kind: token.STRING, Value: fmt.Sprintf("%q", name)}, body)})
 			c.Replace(&ast.BlockStmt{List: list})
@@ -443,6 +448,16 @@ func (r *rewriter) file2(f *ast.File) {
 			}
 		}
 	}
+}
+
+// enclosing returns the name of the function declaration that contains n.
+func (r *rewriter) enclosing(n ast.Node) string {
+	for _, d := range r.cur.Decls {
+		if fd, ok := d.(*ast.FuncDecl); ok && fd.Pos() <= n.Pos() && n.End() <= fd.End() {
+			return fd.Name.Name
+		}
+	}
+	return "?"
 }
 
 func exprName(e ast.Expr) string {
